@@ -98,9 +98,10 @@ theorem op_roundtrip {V : Type} (path : String) (o : Op2 V) (h : opSimpleBack o 
   simp only [opSimpleBack, Bool.and_eq_true] at h
   obtain ⟨ps, hp1, hp2⟩ := params_roundtrip o.params h.1
   obtain ⟨rs, hr1, hr2⟩ := responses_roundtrip o.produces o.responses h.2
-  refine ⟨{ method := o.method, opId := o.opId, consumes := [], produces := [], params := ps ++ [], responses := rs }, ?_, ?_⟩
+  refine ⟨{ method := o.method, opId := o.opId, consumes := [], produces := [], params := ps ++ [], responses := rs,
+            info := conv fromV3OpTable (conv toV3OpTable o.info), security := o.security }, ?_, ?_⟩
   · simp only [fromV3Op, toV3OpS, hp1, hr1]
-  · simp [opA2, hp2, hr2]
+  · simp [opA2, hp2, hr2, meta_roundtrip]
 
 theorem ops_roundtrip {V : Type} (path : String) (l : List (Op2 V)) (h : l.all opSimpleBack = true) :
     ∃ l', (l.map toV3OpS).mapM (fromV3Op []) = some l' ∧
@@ -213,10 +214,10 @@ theorem defs_roundtrip {V : Type} (l : List (String × Sch V)) (h : l.all (fun k
     obtain ⟨i1, i2, i3⟩ := ih h.2
     have hk := h.1
     simp only [defSimpleBack, Bool.and_eq_true, Bool.not_eq_true'] at hk
-    obtain ⟨⟨⟨⟨⟨hnb, hdisc⟩, haddl⟩, hv2⟩, _⟩, hfmt⟩ := hk
+    obtain ⟨⟨⟨hnb, hv2⟩, _⟩, hfmt⟩ := hk
     have hnb3 := noBinary3_toV3S ks.2 hnb
     have hso := fromV3SO_eq [] (toV3S ks.2) hnb3
-    have hrt := roundtripS_partial ks.2 hdisc haddl hv2
+    have hrt := roundtripS ks.2 hv2
     have hb1 : isBinaryFmt (toV3S ks.2) = false := by
       cases hs : ks.2 with
       | ref k n => simp [toV3S, isBinaryFmt]
@@ -246,6 +247,7 @@ theorem api2_roundtrip_simple {V : Type} (d : Doc2 V) (h : docSimpleBack d = tru
       (api2 d2).ops = (api2 d).ops ∧ (api2 d2).pathParams = (api2 d).pathParams ∧
       (api2 d2).shared = (api2 d).shared ∧ (api2 d2).sharedResponses = (api2 d).sharedResponses ∧
       (api2 d2).defs = (api2 d).defs ∧ (api2 d2).security = (api2 d).security ∧
+      (api2 d2).securityReq = (api2 d).securityReq ∧
       (∀ x, x ∈ (api2 d2).servers ↔ x ∈ (api2 d).servers) := by
   simp only [docSimpleBack, Bool.and_eq_true, bne_iff_ne, ne_eq] at h
   obtain ⟨⟨⟨⟨⟨⟨⟨hsimple, hparams, hpnodup⟩, hpaths⟩, hresps⟩, hnodup⟩, hdefs⟩, hsecs⟩, hhost, hschemes⟩ := h
@@ -263,7 +265,7 @@ theorem api2_roundtrip_simple {V : Type} (d : Doc2 V) (h : docSimpleBack d = tru
       defs := ((d.defs.map (fun ks => (ks.1, ({ formName := none, schema := toV3S ks.2 } : CSchema V)))).filter
           (fun kc => !isBinary kc.2.schema)).filterMap (fun kc => (fromV3SO [] kc.2.schema).map (fun s => (kc.1, s))),
       secs := secs.filterMap (fun (ks : String × Sec3) => match fromV3Sec ks.2 with | .ok t => some (ks.1, t) | _ => none),
-      paths := paths2 }
+      paths := paths2, security := d.security }
   · simp only [fromV3]
     have e1 : (List.filter (fun (x : String × CSchema V) => isBinaryFmt x.2.schema)
         (d.defs.map (fun ks => (ks.1, ({ formName := none, schema := toV3S ks.2 } : CSchema V))))) = [] := hbinfmt
@@ -271,7 +273,7 @@ theorem api2_roundtrip_simple {V : Type} (d : Doc2 V) (h : docSimpleBack d = tru
         (d.defs.map (fun ks => (ks.1, ({ formName := none, schema := toV3S ks.2 } : CSchema V))))) = [] := hbin
     simp only [e1, e2, List.map_nil, hp1, hr1, hsh1, List.flatMap_nil]
     rfl
-  · refine ⟨hp2, hp3, ?_, hr2, hdefs2, hsecs2, ?_⟩
+  · refine ⟨hp2, hp3, ?_, hr2, hdefs2, hsecs2, rfl, ?_⟩
     · have hnd : nodupKeys (d.params.map (fun kp => (kp.1, backPS kp.2))) = true := by
         rw [nodupKeys_map]; exact hpnodup
       show List.map _ (dedupLast ([] ++ d.params.map (fun kp => (kp.1, backPS kp.2)) ++ [])) = _
